@@ -249,6 +249,10 @@ func multiF1(mask int, vs int) *Multivariant {
 				// what a quoted-string carries verbatim: a backslash, a tab, non-ASCII letters and spaces, separators
 				r.Name = []string{"Fran\u00e7ais \\ commentaire", "tab\there", "a b\u00a0c, d=e;#", "\u65e5\u672c\u8a9e\u3000\u89e3\u8aac"}[(k+i)%4]
 			}
+			if vs%4 == 2 {
+				// white space at the ends of a quoted-string is part of the value
+				r.Name = []string{"English ", " lead", "\ttabs\t", "Espa\u00f1ol\u00a0"}[(k+i)%4]
+			}
 			switch typ {
 			case "AUDIO":
 				r.GroupID = "aud"
@@ -689,6 +693,15 @@ func (pc plCase) build() Playlist {
 			// URIs as they come: plain, percent-encoded (path and signed query), a bare per cent sign, text that looks like
 			// formatting directives
 			s.URI = fmt.Sprintf([]string{"s%d_%d.mp4", "my%%20video/s%d_%d.mp4?sig=a%%2Bb%%3D", "100%%.s%d_%d.mp4", "%%s%%d%%v%%!_s%d_%d.ts"}[(pc.VS+i)%4], pc.Mask, i)
+			// quoted strings carry white space at their ends verbatim (part URIs; rendition names have their own family)
+			for pi, p := range s.Parts {
+				if (pc.VS+i+pi)%3 == 1 {
+					p.URI = []string{" lead_" + p.URI, p.URI + " ", "\t" + p.URI + "\u00a0"}[(pc.VS+pi)%3]
+				}
+			}
+			if m.Map != nil && pc.VS%5 == 2 {
+				m.Map = &MediaMap{URI: " i.mp4 "}
+			}
 			m.Segments = append(m.Segments, s)
 		}
 		// documented requirement: once a key is in force, "no key" is expressed as METHOD=NONE
@@ -1269,6 +1282,7 @@ var c15Menu = []string{
 	"#EXT-X-PRELOAD-HINT:TYPE=MAP,URI=\"i.mp4\"", "#EXT-X-PRELOAD-HINT:TYPE=PART,URI=\"p.mp4\"",
 	"#EXTINF:0.4,", // a duration that is not zero but rounds to zero seconds
 	"#EXT-X-SKIP:SKIPPED-SEGMENTS=3",
+	"#EXT-X-PART:DURATION=1,GAP=YES", "#EXT-X-PART:DURATION=1,URI=\"p.mp4\",GAP=YES", // parts that are not available: with and without the URI they need all the same
 }
 
 func c15Run(c *vh.Ctx) {
